@@ -1,5 +1,6 @@
 import DltypeModel
 import DltypeModel.Generated.Errors
+import Properties.C08
 /-!
 # The translator tie for the messages of the error classes (C08: "whose message names the offending tensor, the axis index, expected and actual").
 
@@ -109,6 +110,65 @@ theorem invalidRef_message_names_the_missing_name (t mr : Name) (refs : List Nam
   unfold Gen.invalidRefMessage
   rw [split_missing]
   simp only [List.append_assoc]
+
+/-! ## which tensor a report is about -/
+
+/-- the tensor name a report carries -/
+def tensorOf : Report → Option Name
+  | .shape t _ _ _ => some t
+  | .ndims t _ _ => some t
+  | .dtype t => some t
+  | .duplicate t => some t
+  | .invalidRef t _ _ => some t
+  | .unsupported => none
+  | .scopeProvider => none
+
+theorem checkLiterals_names (tn : Name) (ann : Ann) (shape : List Nat) (l : List (Nat × Int)) (r : Report)
+    (h : checkLiterals tn ann shape l = .error r) : tensorOf r = some tn := by
+  induction l with
+  | nil => cases h
+  | cons x rest ih =>
+    obtain ⟨idx, lit⟩ := x
+    simp only [checkLiterals] at h
+    split at h
+    · cases h
+    · split at h
+      · cases h; rfl
+      · exact ih h
+
+/-- the standalone check names the tensor it was asked about -/
+theorem check_names (acc : Acc) (ann : Ann) (t : Tensor) (tn : Name) (r : Report) (h : check acc ann t tn = .error r) :
+    tensorOf r = some tn := by
+  unfold check at h
+  cases hr : rankCheck ann t.shape tn with
+  | error r' =>
+    rw [hr] at h
+    cases h
+    unfold rankCheck at hr
+    split at hr <;> split at hr <;> first | (cases hr; rfl) | cases hr
+  | ok u =>
+    rw [hr] at h
+    simp only at h
+    split at h
+    · cases h; rfl
+    · exact checkLiterals_names tn ann t.shape ann.literalDims r h
+
+/-- **every rejection of a context names the tensor that was rejected** — the display name (`name`, `name[i]` for tuple element
+    i > 0) of the FIRST entry that fails (C08a): the report's tensor is that entry's display name, and, for the four kinds of message
+    built from the report, `tensor=<that name>` is what the user reads -/
+theorem rejection_names_the_rejected_tensor (acc : Acc) (st : CState) (es : List Entry) (r : Report)
+    (h : runEntries acc st es = .reject r) :
+    ∃ pre e post st1, es = pre ++ e :: post ∧ runEntries acc st pre = .ok st1 ∧ tensorOf r = some e.displayName := by
+  obtain ⟨pre, e, post, st1, h1, h2, h3⟩ := C08.rejection_is_first_failure acc st es r h
+  refine ⟨pre, e, post, st1, h1, h2, ?_⟩
+  rcases C08.report_kind_matches_aspect acc st1 e r h3 with hc | ⟨hd, _⟩ | ha | ⟨g, b, _, hn, _⟩
+  · exact check_names acc e.ann e.tensor e.displayName r hc
+  · rw [hd]; rfl
+  · obtain ⟨j, dj, aj, σj, _, _, _, h4⟩ := C08.axis_report_is_true e.displayName _ _ _ r ha
+    rcases h4 with ⟨v, hv, _⟩ | ⟨k, hk, _⟩
+    · rw [hv]; rfl
+    · rw [hk]; rfl
+  · rw [hn]; rfl
 
 example : Gen.shapeMessage 1 3 4 "x".toList = "Invalid tensor shape, tensor=x dim=1 expected=3 actual=4".toList := by decide
 example : Gen.ndimsMessage 2 1 [] = "Invalid number of dimensions, tensor=anonymous expected ndims=2 actual=1".toList := by decide
